@@ -155,8 +155,19 @@ class C04(E2EProp):
                 ("S-e2e-latex-config", config_cases(["l0"]), "images with special names, raw parameters and header ids (D29-D33 class), LaTeX"),
                 ("S-e2e-latex-positions", pos, "TeX-special strings <= %d in %d text-bearing positions (text, titles, items, cells, captions, labels, ids, urls: path, query and fragment)" % (T(tier, 1, 2), len(TEXT_POSITIONS)))]
 
+    def standalone_stream(self, tier, rng):
+        """standalone documents (preamble, \\begin{document} ... \\end{document}): not modelled, implementation side and balance oracle only"""
+        pre = [".X set document-title %s\n.X set document-author %s\n.X set document-date %s\n.X set title-page 1\n" % (q, q, q)
+               for q in ['"T"', '"a {b"', '"a }b"', '"a \\e"', '"50% & $x_y^z #1 ~"']] + [".X set lang fr\n", ".X set lang xx}\n", ".X set latex-variant article\n"]
+        cases = [c.replace("l0 ", "l1 ", 1) for c in fam_cases("l0", ["head", "misc", "title", "tags"], T(tier, 2, 3), rng, None, T(tier, 300, 3000))]
+        cases += [e2e.case_of("l1", p + d + "\n") for p in pre for d in CONFIG_DOCS[:5] + [".Ch A\nt\n.Sh B\n.Tc", ".Pt P\n.Ch C\n.Bl\n.It a\n.El", "t"]]
+        st = e2e.E2EStream("S-e2e-latex-standalone", "e2e", cases, oracle=self.oracle, exhaustive=False, nontrivial=nontrivial,
+                           describe="standalone LaTeX documents (preamble from the parameters, title page): implementation side and TeX balance oracle only (the preamble is not modelled)")
+        st.impl_only = True
+        return st
+
     def streams(self, tier, rng):
-        return [esc_stream("latex", tier, rng, "\\{}$&#^_%~[]\xa0")] + super().streams(tier, rng)
+        return [esc_stream("latex", tier, rng, "\\{}$&#^_%~[]\xa0")] + super().streams(tier, rng) + [self.standalone_stream(tier, rng)]
 
 
 class C15(E2EProp):
